@@ -192,7 +192,7 @@ struct HintGrid : EngineBase {
     const T dom[6] = {lo, static_cast<T>(lo + 1), static_cast<T>(mid), static_cast<T>(mid + 1), static_cast<T>(hi - 1), hi};
     std::vector<T> values;
     for (int i = 0; i < 6; ++i) { values.push_back(dom[i]); if (dom[i] != hi) values.push_back(static_cast<T>(dom[i] + 1)); if (dom[i] != lo) values.push_back(static_cast<T>(dom[i] - 1)); }
-    values.push_back(static_cast<T>(mid / 2)); values.push_back(static_cast<T>(mid + (hi - mid) / 2));
+    values.push_back(static_cast<T>(mid / 2)); values.push_back(static_cast<T>(mid / 2 + hi / 2));  // (no hi - mid: that overflows a signed T)
     for (int mask = 0; mask < 64 && !g_cut; ++mask) {
       std::set<T> base;
       for (int i = 0; i < 6; ++i) if (mask & (1 << i)) base.insert(dom[i]);
